@@ -251,6 +251,7 @@ fn run_chain(st: &mut St, acc: &mut Acc, program: &str, depth: u32, idx: u64, in
             return;
         }
     };
+    beat(program);
     acc.evals += 1;
     if std::env::var("MWMC_TRACE").is_ok() {
         eprintln!("TRACE {}", program);
@@ -394,6 +395,7 @@ fn run_session_case(st: &mut St, acc: &mut Acc, idxs: &[usize], suffix: Option<u
         })
         .collect();
     let forms: Vec<Cell> = texts.iter().map(|t| parse_forms(t).unwrap().remove(0)).collect();
+    beat(&texts.join(" "));
     acc.evals += 1;
     let run = if suffix.is_some() {
         if st.pair.as_ref().map(|p| p.used >= 512).unwrap_or(true) {
@@ -430,6 +432,7 @@ fn run_session_case(st: &mut St, acc: &mut Acc, idxs: &[usize], suffix: Option<u
 }
 
 pub fn run(ctx: &Ctx) -> i32 {
+    start_watchdog("C01", 60);
     let mut rep = Report::new("model_checking");
     let max_depth = std::env::var("C01_DEPTH").ok().and_then(|s| s.parse().ok()).unwrap_or(ctx.tier.pick(3u32, 4u32));
     let mut acc = Acc::new();
